@@ -6,8 +6,12 @@ use std::{
     fmt::Debug,
     mem::MaybeUninit,
 };
+#[cfg(not(feature = "verif"))]
 use parking_lot::lock_api::RawMutex as RawMutex_api;
+#[cfg(not(feature = "verif"))]
 use parking_lot::RawMutex;
+#[cfg(feature = "verif")]
+use crate::verif::RawMutex;
 
 
 #[repr(C,align(64))]      // aligned to cache line sizes to avoid false-sharing performance degradation
